@@ -266,7 +266,7 @@ _EXTRA7 = {
  "C03": " Seventh round: (R-PAR-5) the parallel paths of WHERE / JOIN hand every row to exactly one worker; R-CMP-6 registered (the BETWEEN / IN expansions decide which rows WHERE keeps); (R-REC-1) the recursion marker of a scope is written by its creator only, (R-ITER-1) a result assigned inside a per-row callback holds a value when it is read, (R-IDENT-2) names are compared case-insensitively everywhere — three genuine defects repaired (a UNION nested in a recursive CTE, LATERAL over an empty table, `T1.*`); R-CMP-10, R-KEY-7 registered.",
  "C04": " Seventh round: (R-PAR-5) the parallel key computation of GROUP BY hands every row to exactly one worker; (R-DST-1) every success return of an aggregate evaluation honours DISTINCT — genuine defect repaired (COUNT(DISTINCT literal)); (R-KEY-7) a byte buffer whose content becomes a map key is written only by the framed key serialisers (a memo keyed by raw texts joined with ':' hands one bucket key to two tuples); (R-CONV-4) lib/query reads a text as a number only through the lib/value conversions, apart from three listed built-ins — an aggregate with its own parser sums other rows than its bucket holds. (R-SRT-8) comparison keys of datetimes are exact.",
  "C05": " Seventh round: (R-ORD-2) a map-ordered loop that publishes its values is keyed by the container key — genuine defect repaired: UPDATE / DELETE of one table under two aliases lost one alias's changes; (R-TXN-12); R-SCP-1 registered.",
- "C06": " Seventh round: (R-CMP-10) no three-to-two collapse: the argument of ternary.ConvertFromBool never compares a ternary value with a ternary constant (negation is ternary.Not); R-CONV-4 registered.",
+ "C06": " Seventh round: (R-UTF-1) no unicode predicate on a single byte — genuine defect repaired (TrimSpace and leading multi-byte spaces); (R-CMP-10) no three-to-two collapse: the argument of ternary.ConvertFromBool never compares a ternary value with a ternary constant (negation is ternary.Not); R-CONV-4 registered.",
  "C07": " Seventh round: (R-LIM-5) LIMIT and OFFSET have one interpreter: LimitClause.Value / OffsetClause.Value are read only by View.Limit / View.Offset and the three error constructors. (R-LIM-6, engine E12) the clamping arithmetic of LIMIT / OFFSET by symbolic path evaluation: kept = min(max(n,0), L), dropped = min(max(n,0), L), view.offset = dropped; (R-SRT-8) no ordering decision on time.Time.UnixNano (undefined outside 1678–2262) and (R-SRT-9) EquivalentTo is the tie relation of Less — three genuine defects repaired (datetime sort keys, MEDIAN of datetimes, WITH TIES for 1 / 1.0).",
  "C08": " Seventh round: (R-CACHE-6) nothing fails after an eviction until the entry is re-published — genuine defect repaired (a failed lock upgrade dropped the loaded table); R-LOCK-6 / R-OWN-1 registered (a failing CREATE TABLE releases the handler it created).",
  "C09": " Seventh round: (R-LOCK-9) forUpdate is never invented: it comes from the user's FOR UPDATE or from being the target of a data-changing statement.",
